@@ -16,12 +16,14 @@ Phases == {"creating", "preparing", "starting"}
 Endings == [kind : {"result"}, r : Results] \cup [kind : {"runraises"}] \cup [kind : {"fail"}, c : 1..MaxComps, phase : Phases]
            \cup [kind : {"timeout"}, c : 1..MaxComps] \cup [kind : {"signal"}, sig : {"SIGINT", "SIGTERM"}, at : {1, 3, 5, 7, 9}]
            \cup [kind : {"crash"}, at : {5, 7, 9}]
+           \cup [kind : {"fail2"}]                       \* two sibling components (2 and 3) fail in start() at the same moment
 VARIABLES prog, done
 vars == <<prog, done>>
 Valid(p) == /\ (p.end.kind \in {"result", "runraises"} => p.cli)
             /\ (p.end.kind = "signal" /\ p.end.at = 9 => ~p.cli)          \* a signal during run() of a CLI application is not specified
             /\ (p.end.kind = "crash" /\ p.end.at = 9 => ~p.cli)
             /\ (p.end.kind \in {"fail", "timeout"} => p.end.c <= p.n)
+            /\ (p.end.kind = "fail2" => p.n >= 3)
 \* late: the callback registered first (by the root's prepare(), so it runs last) registers one more callback while it runs, i.e.
 \* while the root context is already being torn down; that one has to run as well before run_application finishes
 Init == /\ prog \in {p \in [n : 1..MaxComps, cli : BOOLEAN, end : Endings, late : BOOLEAN] : Valid(p)} /\ done = FALSE
@@ -35,12 +37,12 @@ Outcome(p) ==
                              ELSE IF e.r = "127" THEN [k |-> "exit", code |-> 127] ELSE IF e.r = "enum78" THEN [k |-> "exit", code |-> 78]
                              ELSE [k |-> "exit", code |-> 1])
     [] e.kind = "runraises" -> [k |-> "raise", exc |-> "RunBoom"]
-    [] e.kind \in {"fail", "timeout"} -> [k |-> "exit", code |-> 1]
+    [] e.kind \in {"fail", "timeout", "fail2"} -> [k |-> "exit", code |-> 1]
     [] e.kind = "signal" -> IF e.at < StartupDone THEN [k |-> "exit", code |-> 1] ELSE [k |-> "return"]
     [] e.kind = "crash" -> IF e.at < StartupDone THEN [k |-> "any"] ELSE [k |-> "raise", exc |-> "CrashBoom"]
 \* ---- lemmas on the outcome table (the statement read on the specification) ----
 CodesInRange == done => (Outcome(prog).k = "exit" => Outcome(prog).code \in 1..127)
-StartupProblemsExitOne == (done /\ (prog.end.kind \in {"fail", "timeout"} \/ (prog.end.kind = "signal" /\ prog.end.at < StartupDone))) => Outcome(prog) = [k |-> "exit", code |-> 1]
+StartupProblemsExitOne == (done /\ (prog.end.kind \in {"fail", "timeout", "fail2"} \/ (prog.end.kind = "signal" /\ prog.end.at < StartupDone))) => Outcome(prog) = [k |-> "exit", code |-> 1]
 InvalidResultsExitOne == (done /\ prog.end.kind = "result" /\ prog.end.r \in {"128", "-1", "str", "emptystr", "float0", "list"}) => Outcome(prog) = [k |-> "exit", code |-> 1]
 CleanSignalAfterStartup == (done /\ prog.end.kind = "signal" /\ prog.end.at >= StartupDone /\ ~prog.cli) => Outcome(prog) = [k |-> "return"]
 =============================================================================
